@@ -12,6 +12,7 @@ import Heathcliff.Proofs.C02PW
 import Heathcliff.Proofs.C02PG
 import Heathcliff.Proofs.C02PGW
 import Heathcliff.Proofs.C02PF
+import Heathcliff.Proofs.C02PFW
 
 /- Property theorems only (statements verbatim; proofs are the helper lemmas of Heathcliff/Proofs). -/
 namespace HC.C02
@@ -632,5 +633,12 @@ theorem bfvMultiply_enc : type_of% @HC.c02f_step_mul := @HC.c02f_step_mul
 /-- decryption below the BEHZ threshold; the input hypothesis from any split `t·x = Q·m + ν` with small ν -/
 theorem bfvDecrypt_of_enc : type_of% @HC.c02f_decrypt_of_enc := @HC.c02f_decrypt_of_enc
 theorem bfv_enc_of_split : type_of% @HC.c02f_enc_of_split := @HC.c02f_enc_of_split
+
+/-- NON-VACUITY (BFV): the level `Drv.Sch.mkLevel .bfv 4 [97, 113, 193] 17` with Bsk tables built by `NTTTables.new` satisfies `c02f_LevelOK`
+    (a concrete instance of `MulOK`, `DecOK` and the BEHZ window), and the program x0·x1 − x0 on two fresh ciphertexts satisfies every
+    hypothesis of `hom_program_bfv_partial` (bookkeeping (3, 10986), Q = 2115473); the result decrypts to (0, 3, 14) -/
+theorem bfv_levelOK_example : type_of% @HC.c02f_wLevelOK := @HC.c02f_wLevelOK
+theorem hom_program_bfv_example : type_of% @HC.hom_program_bfv_example := @HC.hom_program_bfv_example
+theorem hom_program_bfv_example_val : type_of% @HC.hom_program_bfv_example_val := @HC.hom_program_bfv_example_val
 
 end HC.C02
